@@ -155,8 +155,21 @@ pub fn gen_script(rng: &mut Rng, ctx: &mut Ctx, depth: u32, is_reply: bool) -> S
             } else {
                 acts.push(format!("(w {} {:02x})", rng.pick(KEYS), rng.range(1, 9)));
             }
-        } else if r < 26 {
+        } else if r < 24 {
             acts.push(format!("(rm {})", rng.pick(KEYS)));
+        } else if r < 26 {
+            // overwrite-then-remove (or remove-then-set) of a key that is committed since the setup
+            let k = rng.pick(&["6b", "6b", "00"]);
+            if rng.chance(2, 3) {
+                acts.push(format!("(w {} {:02x})", k, rng.range(10, 99)));
+                acts.push(format!("(rm {})", k));
+            } else {
+                acts.push(format!("(rm {})", k));
+                acts.push(format!("(w {} {:02x})", k, rng.range(10, 99)));
+            }
+            if rng.chance(1, 2) {
+                acts.push(format!("(rd {})", k));
+            }
         } else if r < 33 {
             acts.push(format!("(rd {})", rng.pick(KEYS)));
         } else if r < 36 {
